@@ -19,6 +19,7 @@ RULE = ('(a) random derivations of the grammar (and one-token mutants: list_name
         'list_names generators, evals); (b) the same texts with an illegal character spliced into a token gap; (c) evaluation of parsable programs with a recording '
         'host mapping. Non-trivial = a text with >= 1 identifier compared / >= 1 host lookup recorded; distinct = distinct text.')
 RULE += ' The identifier pool includes letters that Unicode normalisation would rewrite (OHM/KELVIN/ANGSTROM SIGN, fullwidth letters, ligatures).'
+RULE += ' One case in three runs on a parser whose host parse cache can refuse a store (shared earlier-call kit); one in four evaluations uses a read-only recording Mapping that is not a dict.'
 ASSUMPTIONS = ['two tokens may abut exactly when no longer token could be formed across the junction (rule written down in may_abut(), from the lexical grammar)',
                'implicit names of syntax sugar: list, dict, __getitem__, __setitem__, __delitem__, __setitem_with_op__',
                'a partially consumed list_names generator is abandoned, never resumed after another call']
